@@ -400,7 +400,15 @@ func build(t *testing.T, c *engine.Check, thorough bool, famNames, refreshable [
 					continue // an empty actor_token means "no actor"
 				}
 				for _, tt := range []string{"access_token", "refresh_token"} {
-					*all = append(*all, strings.Join([]string{"ex", R, tk.name, role, tt}, "|"))
+					// requested_token_type named explicitly (so that the answer does not hinge on the storage's
+					// default, which refstore only fills in after its own liveness check); thorough adds the implicit form
+					rtts := []string{"rtt-at"}
+					if thorough {
+						rtts = append(rtts, "rtt-none")
+					}
+					for _, rtt := range rtts {
+						*all = append(*all, strings.Join([]string{"ex", R, tk.name, role, tt, rtt}, "|"))
+					}
 				}
 			}
 			if tk.gen == 1 {
@@ -1004,6 +1012,9 @@ func (w *world) doExchange(s S, p []string, router int, do doFn, resp **rig.Resp
 	}
 	urn := "urn:ietf:params:oauth:token-type:" + tt
 	form := url.Values{"grant_type": {teGrant}}
+	if len(p) > 5 && p[5] == "rtt-at" {
+		form.Set("requested_token_type", "urn:ietf:params:oauth:token-type:access_token")
+	}
 	subjectOK := true
 	if role == "subject" {
 		form.Set("subject_token", w.str(s, tk))
